@@ -1,0 +1,9 @@
+//go:build verif
+
+package eval
+
+func VerifReset() {
+	DefineInfoArticles = []DefineInfoArticle{}
+	DynamicEvaluators["if"] = NewIfUnless("if")
+	DynamicEvaluators["unless"] = NewIfUnless("unless")
+}
